@@ -63,12 +63,12 @@ package location
 
 // the comparison used for sorting orders by specificity class, ascending
 //@ func (ls *Locations) Set$1(i int, j int) (less bool)
-//@   requires [ptr] data != nil
-//@   requires [data] 0 <= i && i < len(deref(data)) && 0 <= j && j < len(deref(data)) && deref(data)[i] != nil && deref(data)[j] != nil
-//@   requires [memo] memoOK(deref(data)[i]) && memoOK(deref(data)[j])
-//@   modifies deref(data)[i].priority.v, deref(data)[j].priority.v
+//@   requires [ptr] len(data) >= 0
+//@   requires [data] 0 <= i && i < len(data) && 0 <= j && j < len(data) && data[i] != nil && data[j] != nil
+//@   requires [memo] memoOK(data[i]) && memoOK(data[j])
+//@   modifies data[i].priority.v, data[j].priority.v
 //@   nopanic
-//@   ensures [order] less <==> prioOf(deref(data)[i]) < prioOf(deref(data)[j])
+//@   ensures [order] less <==> prioOf(data[i]) < prioOf(data[j])
 
 // sort.Slice as used by Set: with the comparison Set$1 (verified above to order by specificity
 // class) it permutes the slice into ascending class order. Assumed (library behaviour).
@@ -100,3 +100,44 @@ package location
 //@ func generateURLRewriter(arr []string) (r Rewriter)
 //@   trusted
 //@   nopanic
+
+// ---- request/response decoration (C15) ----------------------------------------------------
+
+//@ axiom [default-locations]: defaultLocations != nil
+
+// mergeHeader walks the Go map of src and Adds every value to dst; stated over the header model
+// of libspec/15_http.spec (the link between the Go map and that model is assumed)
+//@ func (l *Location) mergeHeader(dst http.Header, src http.Header)
+//@   trusted
+//@   nopanic
+//@   modifies $hdr[dst]
+//@   ensures [merged] $hdr[dst] == mergeHdr(old($hdr[dst]), hdr(src))
+
+//@ func (l *Location) AddRequestHeader(header http.Header)
+//@   requires [recv] l != nil
+//@   nopanic
+//@   modifies $hdr[header]
+//@   ensures [merged] $hdr[header] == mergeHdr(old($hdr[header]), hdr(l.RequestHeader))
+
+//@ func (l *Location) AddResponseHeader(header http.Header)
+//@   requires [recv] l != nil
+//@   nopanic
+//@   modifies $hdr[header]
+//@   ensures [merged] $hdr[header] == mergeHdr(old($hdr[header]), hdr(l.ResponseHeader))
+
+//@ func (l *Location) ShouldModifyQuery() (b bool)
+//@   requires [recv] l != nil
+//@   nopanic
+
+// query values are appended with net/url (assumed); only the raw query of the request changes
+//@ func (l *Location) AddQuery(req *http.Request)
+//@   trusted
+//@   requires [req] l != nil && req != nil && req.URL != nil
+//@   nopanic
+//@   modifies req.URL.RawQuery
+
+// a rewriter only assigns the URL path of the request it is given
+//@ functype (f Rewriter) call(req *http.Request)
+//@   requires [req] req != nil && req.URL != nil
+//@   nopanic
+//@   modifies req.URL.Path
